@@ -84,3 +84,10 @@ def allocated(ex, st, obj):
     pointer), hence differs from every object created later."""
     from pyvc.vals import as_ref, v_bool
     return v_bool(as_ref(obj) < st.alloc)
+
+
+@spec('other_object')
+def other_object(ex, st, a, b):
+    """other_object(a, b): a and b are different heap objects (their references differ)."""
+    from pyvc.vals import as_ref, v_bool
+    return v_bool(as_ref(a) != as_ref(b))
